@@ -46,8 +46,8 @@ type modEngine struct {
 	attrs map[key.TargetID]*info.Attributes
 }
 
-func (e *modEngine) Events() *event.System      { return e.ev }
-func (e *modEngine) Rand() *rand.Rand           { return e.rnd }
+func (e *modEngine) Events() *event.System       { return e.ev }
+func (e *modEngine) Rand() *rand.Rand            { return e.rnd }
 func (e *modEngine) IsValid(t key.TargetID) bool { _, ok := e.attrs[t]; return ok }
 func (e *modEngine) Stats(t key.TargetID) *info.Stats {
 	a, ok := e.attrs[t]
